@@ -2231,6 +2231,9 @@ class UpdateRisk(Algo):
         # General setup of risk on nodes
         if not hasattr(target, "risk"):
             self._setup_risk(target, set_history)
+        elif set_history and not hasattr(target, "risks"):
+            # risk was set up from another level of the tree without history
+            target.risks = pd.DataFrame(index=target.data.index)
         if self.measure not in target.risk:
             self._setup_measure(target, set_history)
 
